@@ -41,7 +41,7 @@ import vlib
 # schemagen features whose output lies (mostly) in the fragment; what falls outside
 # (by-value recursion, non-ASCII names are rewritten) is filtered by `in_frag` itself
 FEATURES = {"bool", "int", "int_format", "number", "string", "null", "str_enum", "object", "closed_object",
-            "map", "array", "nullable_type", "ref", "recursion", "rename", "str_len", "str_pattern"}
+            "map", "array", "nullable_type", "ref", "recursion", "rename", "str_len", "str_pattern", "int_bounds"}
 
 CORPUS = os.path.join(vlib.ROOT, "corpus", "convert")
 
@@ -69,6 +69,16 @@ LEAVES = [
     {"type": "string", "pattern": "^[a-z]+$"},            # outside: the pattern class
     {"type": "string", "enum": ["a", "bb"], "minLength": 2},   # outside: enum with validation
     {"minLength": 2},                                     # outside: untyped
+    {"type": "integer", "minimum": 0, "maximum": 255}, {"type": "integer", "minimum": 1},
+    {"type": "integer", "format": "uint8", "minimum": 1, "maximum": 200},
+    {"type": "integer", "format": "int8", "maximum": 300}, {"type": "integer", "exclusiveMinimum": 0},
+    {"type": "integer", "minimum": -128, "maximum": 127, "multipleOf": 2}, {"type": "integer", "format": "foo"},
+    {"type": ["integer", "null"], "minimum": 0, "maximum": 65535}, {"type": "integer", "format": "uint64", "maximum": 5},
+    {"type": "integer", "format": "int64", "maximum": 9223372036854775808},
+    {"type": "integer", "minimum": 0, "maximum": 18446744073709551616}, {"type": "integer", "maximum": 9223372036854775808},
+    {"type": "integer", "minimum": -9223372036854775808}, {"type": "integer", "exclusiveMaximum": 256, "minimum": 0},
+    {"type": "integer", "minimum": 0.5},                  # outside: not an integer bound
+    {"type": "integer", "maximum": 1e17},                 # outside: not a safe bound
     {"type": "array", "items": {"type": "boolean"}, "minItems": 1, "maxItems": 4}, {"type": "array", "maxItems": 2},
     {"type": "array", "items": {"type": "boolean"}, "minItems": 2, "maxItems": 2},   # outside: fixed length
     {"type": "array", "items": {"type": "boolean"}, "minItems": 0, "maxItems": 0},   # outside
@@ -374,6 +384,10 @@ def convert_obligations(ctx, prop, n=None, exhaustive_docs=None, k3=True):
         vlib.standard_coq_obligations(ctx, module, thms, vlib.STD_AXIOMS)
     finally:
         ctx.prop = saved
+    if prop == "C02":
+        # the model's integer table = the table regenerated from convert.rs (Gen/IntTable.v, C10's translator)
+        ok, out = vlib.coq_make(["theories/Proofs/ConvertIntTie.vo"])
+        ctx.oblige("Convert.int_rows = regenerated integer format table (Proofs/ConvertIntTie.v)", ok, out[-1500:])
     if not k3:
         return None
     quick = getattr(ctx, "tier", "quick") == "quick"
